@@ -204,6 +204,8 @@ def check_dir(case, ev):
         for i, ch in enumerate(chunks):
             name = "f%d.cfg" % i
             texts[name] = build(dict(case, lines=ch)).replace("\r\n", "\n").replace("\r", " ")
+            if case.get("bom") and i % 2 == 0:
+                texts[name] = "\ufeff" + texts[name]  # a file saved with a byte-order mark: it is part of the first token
             with open(os.path.join(d, "in", name), "w", encoding="utf-8", newline="") as fh:
                 fh.write(texts[name])
         _, exc = guarded(
@@ -222,6 +224,8 @@ def check_dir(case, ev):
                 return Finding("dir/output-missing", name, case)
             o = open(p_, encoding="utf-8", newline="").read()
             il, ol = t.split("\n"), o.split("\n")
+            if t.startswith("\ufeff") and not o.startswith("\ufeff"):
+                return Finding("dir/byte-order-mark-dropped", "file %s starts with U+FEFF, its output with %r" % (name, o[:12]), case)
             if len(il) != len(ol):
                 return Finding("dir/line-count-changed", "file %s (processed with %d other files): %d lines in, %d lines out" % (name, len(chunks) - 1, len(il) - 1, len(ol) - 1), case)
             for a, b in zip(il, ol):
@@ -238,6 +242,10 @@ def check_corpus(case, ev):
     from netconan.anonymize_files import FileAnonymizer
 
     lines = [case["lead"][i % len(case["lead"])] + S.CORPUS[k % len(S.CORPUS)] for i, k in enumerate(case["idx"])]
+    if case.get("wide"):
+        # one line of several hundred ordinary words (a long allowed-vlan / prefix / member list)
+        w, h = case["wide"]
+        lines.append("".join(S.BENIGN[core.derive("wide", h, j) % len(S.BENIGN)] + ("%d" % (core.derive("widen", h, j) % 4096) if j % 3 == 0 else "") + " " for j in range(w)).rstrip())
     fa, exc = guarded(lambda: FileAnonymizer(anon_pwd=True, anon_ip=False, salt=case["salt"], sensitive_words=["qqzzqq"] if case.get("words") else None, as_numbers=["4199999999"] if case.get("asn") else None))
     if exc is not None:
         return core.exc_finding(exc, case, "ctor/")
@@ -245,11 +253,13 @@ def check_corpus(case, ev):
     if exc is not None:
         return core.exc_finding(exc, case, "run/")
     outs = out.split("\n")[:-1]
-    ev.case(case, True, ["corpus-lines%d" % len(lines)])
+    ev.case(case, True, ["corpus-lines%d" % min(len(lines), 40)] + (["line-of-%d00-words" % (case["wide"][0] // 100)] if case.get("wide") else []))
     if len(outs) != len(lines):
         return Finding("corpus/line-count-changed", "%d -> %d" % (len(lines), len(outs)), case)
     for a, b in zip(lines, outs):
         if a.split() != b.split() or a[: len(a) - len(a.lstrip())] != b[: len(b) - len(b.lstrip())]:
+            if len(a.split()) > 200:
+                return Finding("corpus/line-of-hundreds-of-words-changed-by-password-stage", "%d words in, %d out; first difference at word %d" % (len(a.split()), len(b.split()), next((i for i, (x, y) in enumerate(zip(a.split(), b.split())) if x != y), min(len(a.split()), len(b.split())))), {"idx": [], "lead": [""], "salt": case["salt"], "wide": case["wide"]})
             return Finding("corpus/ordinary-line-changed-by-password-stage", "%r -> %r" % (a, b), {"idx": [S.CORPUS.index(a.strip()) if a.strip() in S.CORPUS else 0], "lead": [""], "salt": case["salt"]})
     return None
 
@@ -360,6 +370,7 @@ def _dir_case(draw):
     if any(getattr(f, "keys", None) is None for f in c["features"]) and not any(c["features"]):
         c["features"][0] = True
     c["cuts"] = draw(st.lists(st.integers(1, max(1, len(c["lines"]) - 1)), min_size=1, max_size=3))
+    c["bom"] = draw(st.integers(0, 3)) == 0
     return c
 
 
@@ -371,7 +382,8 @@ def t_corpus(shard, nshards, seed, ev, known, n=60):
     strat = st.fixed_dictionaries({"idx": st.lists(st.integers(0, len(S.CORPUS) - 1), min_size=1, max_size=30), "lead": st.lists(st.sampled_from(["", "", " ", "\t", "    "]), min_size=1, max_size=5), "salt": st.sampled_from(["s", "", "Tsalt"]), "words": st.booleans(), "asn": st.booleans()})
     fs = core.hyp_drive(strat, check_corpus, n, seed, ev, known, check_name="corpus")
     # and every corpus line once, in order
-    return fs + core.enum_drive([{"idx": list(range(len(S.CORPUS))), "lead": [""], "salt": "s"}], check_corpus, ev, known, "corpus")
+    wide = [{"idx": [0], "lead": [""], "salt": "s", "wide": [w, core.derive("c12w", seed, shard, w) % 1000]} for w in (250, 257, 300, 513, 700, 1100)]
+    return fs + core.enum_drive([{"idx": list(range(len(S.CORPUS))), "lead": [""], "salt": "s"}] + wide, check_corpus, ev, known, "corpus")
 
 
 def plan(tier):
